@@ -1,10 +1,13 @@
-(* C06 — Linear / categorical weight constraints.  Property theorems only. *)
-From TFL Require Import Model.LinearProject Proofs.PartialOrder.
+(* C06 — Linear / categorical weight constraints.  Property theorems only;
+   proofs live in Proofs/PartialOrder.v, Proofs/TopoSort.v, Proofs/LinearProject.v.
+   All statements are about ONE column (unit) of the weight matrix;
+   C06_per_unit / C06_categorical_per_unit lift them to the (dims, units) matrix. *)
+From TFL Require Import Model.LinearProject Proofs.PartialOrder Proofs.TopoSort Proofs.LinearProject.
 Open Scope Q_scope.
 
-(* The partial-order projection (shared by Linear dominances and categorical
-   ordering pairs), for every pair list and every valid topological order of it:
-   the result satisfies every pair. *)
+(* ---------------- shared partial-order projection ---------------- *)
+(* For every pair list and every valid topological order of it: the result
+   satisfies every pair. *)
 Theorem C06_partial_order_feasible : forall ps s w,
   topo_ok ps s -> (forall v, In v s -> (v < length w)%nat) -> feasible ps (po_with_order ps s w).
 Proof. exact po_with_order_feasible. Qed.
@@ -15,3 +18,141 @@ Theorem C06_partial_order_feasible_fixed : forall ps s w,
   feasible ps w -> peq (po_with_order ps s w) w.
 Proof. exact po_with_order_fixed. Qed.
 Print Assumptions C06_partial_order_feasible_fixed.
+
+(* The DFS topological sort (_topological_sort) on EVERY non-empty acyclic pair
+   list: no "Circular" error, the model's fuel suffices, and the returned order
+   is a valid topological order consisting of nodes of the pairs.
+   path ps a b = non-empty chain of pairs from a to b; acyclic ps = no path a a. *)
+Theorem C06_toposort_correct : forall ps, ps <> [] -> acyclic ps ->
+  exists s, toposort ps = TopoOk s /\ topo_ok ps s /\ (forall v, In v s -> In v (nodes ps)).
+Proof. exact toposort_correct_nodes. Qed.
+Print Assumptions C06_toposort_correct.
+
+(* ---------------- CategoricalCalibration ---------------- *)
+Theorem C06_categorical_defined : forall ps lo hi w, acyclic ps -> pairs_in_range ps w ->
+  exists r, cat_project_col ps lo hi w = Some r /\ length r = length w.
+Proof. exact cat_defined. Qed.
+Print Assumptions C06_categorical_defined.
+
+(* every ordering pair of every acyclic pair list holds after projection + clip *)
+Theorem C06_categorical_pairs : forall ps lo hi w r, ps <> [] -> acyclic ps -> pairs_in_range ps w ->
+  cat_project_col ps lo hi w = Some r -> feasible ps r.
+Proof. exact cat_pairs. Qed.
+Print Assumptions C06_categorical_pairs.
+
+(* every entry is <= output_max, and >= output_min (when output_min <= output_max) *)
+Theorem C06_categorical_bounds : forall ps lo hi w r, cat_project_col ps lo hi w = Some r -> forall x, In x r ->
+  (forall h, hi = Some h -> x <= h) /\ (forall l, lo = Some l -> (forall h, hi = Some h -> l <= h) -> l <= x).
+Proof. exact cat_bounds. Qed.
+Print Assumptions C06_categorical_bounds.
+
+Theorem C06_categorical_feasible_fixed : forall ps lo hi w r,
+  feasible ps w -> (forall x, In x w -> within lo hi x) -> cat_project_col ps lo hi w = Some r -> peq r w.
+Proof. exact cat_fixed. Qed.
+Print Assumptions C06_categorical_feasible_fixed.
+
+(* ---------------- Linear ---------------- *)
+(* lin_valid c n = what verify_hyperparameters guarantees for n inputs, plus
+   acyclicity of the two dominance graphs (see Proofs/LinearProject.v). *)
+Theorem C06_linear_defined : forall rt c n w, lin_valid c n -> length w = n ->
+  exists r, lin_project_col rt c w = Some r /\ length r = n.
+Proof. exact lin_defined. Qed.
+Print Assumptions C06_linear_defined.
+
+Theorem C06_signs : forall rt c n w r, lin_valid c n -> length w = n -> lin_project_col rt c w = Some r ->
+  forall i, (nth i (lc_monos c) 0%Z = 1%Z -> 0 <= nth i r 0) /\
+            (nth i (lc_monos c) 0%Z = (-1)%Z -> nth i r 0 <= 0).
+Proof. exact lin_signs. Qed.
+Print Assumptions C06_signs.
+
+Theorem C06_monotonic_dominance : forall rt c n w r, lin_valid c n -> length w = n -> lin_project_col rt c w = Some r ->
+  forall dom weak, In (dom, weak) (lc_mdom c) -> nth weak r 0 <= nth dom r 0.
+Proof. exact lin_mdom. Qed.
+Print Assumptions C06_monotonic_dominance.
+
+(* scaled by the code's own scalings (negative for decreasing inputs, as in
+   linear_lib.assert_constraints) *)
+Theorem C06_range_dominance : forall rt c n w r, lin_valid c n -> length w = n -> lin_project_col rt c w = Some r ->
+  forall dom weak, In (dom, weak) (lc_rdom c) ->
+    scaling (nth weak (lc_monos c) 0%Z) (nth weak (lc_min c) None) (nth weak (lc_max c) None) * nth weak r 0 <=
+    scaling (nth dom (lc_monos c) 0%Z) (nth dom (lc_min c) None) (nth dom (lc_max c) None) * nth dom r 0.
+Proof. exact lin_rdom. Qed.
+Print Assumptions C06_range_dominance.
+
+(* the same with the ranges written out: |range_weak| * |w_weak| <= |range_dom| * |w_dom| *)
+Theorem C06_range_dominance_explicit : forall rt c n w r, lin_valid c n -> length w = n -> lin_project_col rt c w = Some r ->
+  forall d k, In (d, k) (lc_rdom c) -> exists ld hd lk hk,
+    nth d (lc_min c) None = Some ld /\ nth d (lc_max c) None = Some hd /\ ld < hd /\
+    nth k (lc_min c) None = Some lk /\ nth k (lc_max c) None = Some hk /\ lk < hk /\
+    (nth d (lc_monos c) 0%Z = 1%Z -> (hk - lk) * nth k r 0 <= (hd - ld) * nth d r 0) /\
+    (nth d (lc_monos c) 0%Z = (-1)%Z -> (hk - lk) * - nth k r 0 <= (hd - ld) * - nth d r 0).
+Proof. exact lin_rdom_explicit. Qed.
+Print Assumptions C06_range_dominance_explicit.
+
+(* division safety of the un-scaling step *)
+Theorem C06_range_scaling_nonzero : forall m lo hi, ~ scaling m lo hi == 0.
+Proof. exact scaling_nonzero. Qed.
+Print Assumptions C06_range_scaling_nonzero.
+
+(* with_norm c 0 = the same configuration without normalization *)
+Theorem C06_norm_one_or_zero : forall rt c n w r,
+  lin_valid c n -> length w = n -> lc_norm c = 1%nat -> lin_project_col rt c w = Some r ->
+  exists w3, lin_project_col rt (with_norm c 0) w = Some w3 /\
+    (qsum (map qabs r) == 1 \/ (qsum (map qabs w3) < norm_eps /\ peq r w3)).
+Proof. exact lin_norm1. Qed.
+Print Assumptions C06_norm_one_or_zero.
+
+(* order 2: rt is the square-root oracle, assumed exact at the one sum of squares S *)
+Theorem C06_norm_one_or_zero_l2 : forall rt c n w r,
+  lin_valid c n -> length w = n -> lc_norm c = 2%nat -> lin_project_col rt c w = Some r ->
+  exists w3, lin_project_col rt (with_norm c 0) w = Some w3 /\
+    let S := qsum (map (fun x => x * x) w3) in
+    (rt S * rt S == S ->
+     qsum (map (fun x => x * x) r) == 1 \/ (rt S < norm_eps /\ peq r w3)).
+Proof. exact lin_norm2. Qed.
+Print Assumptions C06_norm_one_or_zero_l2.
+
+(* any normalization order and any root function: the result is the
+   un-normalized result times ONE positive number (so C06_signs,
+   C06_monotonic_dominance, C06_range_dominance above hold for every lc_norm) *)
+Theorem C06_norm_preserves_constraints : forall rt c n w r,
+  lin_valid c n -> length w = n -> lin_project_col rt c w = Some r ->
+  exists w3 e, lin_project_col rt (with_norm c 0) w = Some w3 /\ 0 < e /\ length r = length w3 /\
+    forall i, nth i r 0 == nth i w3 0 * e.
+Proof. exact lin_norm_scaling. Qed.
+Print Assumptions C06_norm_preserves_constraints.
+
+(* lin_feasible c w = right signs /\ all monotonic dominances /\ all range dominances *)
+Theorem C06_linear_feasible_fixed : forall rt c n w r, lin_valid c n -> length w = n -> lc_norm c = 0%nat ->
+  lin_feasible c w -> lin_project_col rt c w = Some r -> peq r w.
+Proof. exact lin_fixed. Qed.
+Print Assumptions C06_linear_feasible_fixed.
+
+Theorem C06_linear_feasible_fixed_l1 : forall rt c n w r, lin_valid c n -> length w = n -> lc_norm c = 1%nat ->
+  lin_feasible c w -> qsum (map qabs w) == 1 -> lin_project_col rt c w = Some r -> peq r w.
+Proof. exact lin_fixed_norm1. Qed.
+Print Assumptions C06_linear_feasible_fixed_l1.
+
+Theorem C06_linear_feasible_fixed_l2 : forall rt c n w r, (forall x, x == 1 -> rt x == 1) ->
+  lin_valid c n -> length w = n -> lc_norm c = 2%nat ->
+  lin_feasible c w -> qsum (map (fun x => x * x) w) == 1 -> lin_project_col rt c w = Some r -> peq r w.
+Proof. exact lin_fixed_norm2. Qed.
+Print Assumptions C06_linear_feasible_fixed_l2.
+
+(* ---------------- units > 1 ---------------- *)
+Theorem C06_per_unit : forall rt c units W R u,
+  lin_valid c (length W) -> lin_project rt c units W = Some R -> (u < units)%nat ->
+  exists r, lin_project_col rt c (column u W) = Some r /\ column u R = r.
+Proof. exact lin_per_unit. Qed.
+Print Assumptions C06_per_unit.
+
+Theorem C06_linear_matrix_defined : forall rt c units W, lin_valid c (length W) ->
+  exists R, lin_project rt c units W = Some R.
+Proof. exact lin_matrix_defined. Qed.
+Print Assumptions C06_linear_matrix_defined.
+
+Theorem C06_categorical_per_unit : forall ps lo hi units W R u,
+  cat_project ps lo hi units W = Some R -> (u < units)%nat ->
+  exists r, cat_project_col ps lo hi (column u W) = Some r /\ column u R = r.
+Proof. exact cat_per_unit. Qed.
+Print Assumptions C06_categorical_per_unit.
